@@ -436,6 +436,24 @@ theorem arr_tensordot_is_dot {L : Type} [DecidableEq L] {α : Type} [CommSemirin
   arrTensordot_dot dim a b ia ib la lb hia hib hlta hltb hd hLa hLb hdis
 
 open Ptn.Ein in
+/-- **Programs of `numpy.tensordot` calls compute `Expr.eval` and the one big sum.**  `Prog` is an arbitrary
+    nesting of `tensordot` calls over labelled arrays, `Prog.run` runs it with `arrTensordot` (the axes of each call
+    are the positions of the pair labels among the operands' legs, `fa.index(x)`), `Prog.expr` is the expression of
+    the network semantics it denotes.  For every strongly well-formed program whose arrays have the dimensions of
+    their labels and whose bound legs have equal dimensions (what NumPy checks): the run succeeds, the result has
+    the dimensions of the free legs in NumPy's order, and read through the free legs it is `Expr.eval` - hence
+    (`Expr.eval_eq_full`) the one sum over the whole binding record of the product of all leaf arrays, what
+    `numpy.einsum` over the record computes.  All sizes, any commutative semiring, any label type with at least one
+    element (an empty label type has only scalar programs). -/
+theorem tensordot_program_is_eval {L : Type} [DecidableEq L] [Inhabited L] {α : Type} [CommSemiring α]
+    (dim : L → Nat) (p : Prog L α) (hswf : p.expr.SWF) (hdim : p.Dims dim) :
+    ∃ C, p.run = some C ∧ C.shape = p.expr.free.map dim ∧
+      ∀ σ : Asg L, (∀ l ∈ p.expr.free, σ l < dim l) →
+        C.toLeaf p.expr.free σ = p.expr.eval dim σ ∧ C.toLeaf p.expr.free σ = p.expr.full dim σ := by
+  obtain ⟨C, h1, h2, h3⟩ := Prog.run_eq_eval dim p hswf hdim
+  exact ⟨C, h1, h2, fun σ hσ => ⟨h3 σ hσ, (h3 σ hσ).trans (Expr.eval_eq_full dim p.expr hswf.wf σ)⟩⟩
+
+open Ptn.Ein in
 /-- **Transposition = relabelling.**  The array transposed by `first ++ last` (`transpose_tensor_by_leg_list`,
     `np.transpose`), read through the labels permuted the same way, is the same leaf tensor as the input read
     through its own labels: a lazily stored axis permutation does not change the tensor of the network. -/
@@ -544,6 +562,16 @@ example : (fun i => Ptn.Ein.sumPairs (fun l => [2, 3, 2, 2, 3].getD l 0) (List.z
       (fun τ => (⟨[2, 3, 2], fun k => (k : ℤ) + 1⟩ : Arr ℤ).toLeaf [0, 1, 2] τ *
         (⟨[2, 3], fun k => (k : ℤ) - 2⟩ : Arr ℤ).toLeaf [3, 4] τ)
       (fun l => if l = 0 then i else 0)) 1 = 41 := by decide
+-- a program of two nested calls over three labelled integer arrays (labels 0..4, dims 2,3,3,2,2):
+-- `tensordot(tensordot(A, B, ([1],[0])), v, ([1],[0]))`; it is strongly well formed, its dimensions fit, and it runs
+example : let p : Ptn.Ein.Prog ℕ ℤ := .dot (.dot (.leaf [0, 1] ⟨[2, 3], fun k => (k : ℤ) + 1⟩)
+      (.leaf [2, 3] ⟨[3, 2], fun k => (k : ℤ) - 2⟩) [(1, 2)]) (.leaf [4] ⟨[2], fun k => 2 * (k : ℤ) - 1⟩) [(3, 4)]
+    p.expr.SWF ∧ p.Dims (fun l => [2, 3, 3, 2, 2].getD l 0) ∧ p.expr.free = [0] ∧
+      p.run.map (fun C => (C.shape, C.get [0], C.get [1])) = some ([2], 6, 15) := by
+  intro p
+  refine ⟨⟨⟨⟨by decide, Ptn.Ein.toLeaf_dependsOn _ _⟩, ⟨by decide, Ptn.Ein.toLeaf_dependsOn _ _⟩, by decide, by decide,
+      by decide, by decide⟩, ⟨by decide, Ptn.Ein.toLeaf_dependsOn _ _⟩, by decide, by decide, by decide, by decide⟩,
+    ⟨⟨rfl, rfl, by decide⟩, rfl, by decide⟩, by decide, by decide⟩
 -- transposition = relabelling on a concrete (2,3) array: A[1,2] read as At through the swapped labels
 example : ((⟨[2, 3], fun k => k⟩ : Arr ℕ).transposeBy [1] [0]).map
       (fun At => At.toLeaf ([1, 0].map (fun x => x)) (fun l => if l = 0 then 1 else 2)) =
